@@ -160,6 +160,8 @@ NEAR_CSS = ["hsl(120deg, 50%, 40%)", "hsl(0.5turn, 50%, 40%)", "hsl(3.4rad, 50%,
 # plain words that are not colours (a CSV heading row, a placeholder, a typo'd name): unparsable like any other poison
 POISON_WORDS = ["text", "background", "color", "colour", "fg", "bg", "foreground", "name", "notacolor", "alsobad", "Text Colour",
                 "bg_color", "large", "none", "default", "auto", "grey50", "lightgray2", "blu", "whit"]
+# the subset that is well-formed as a CSS declaration value (used as text / background colours of generated stylesheets)
+NEAR_CSS_IN_SHEETS = [x for x in NEAR_CSS if x.startswith(("hsl", "rgb(10 20", "rgb(50%", "#1", "hwb", "lab", "lch", "okl", "color", "light-dark", "canvastext", "rgb(10.5", "rgb(1e2"))]
 POISON_OBJ = [None, (1, 2), (1, 2, 3, 4, 5), (300, 0, 0), (-1, 0, 0), ("a", "b", "c"), 3.5, (None, None, None), [], ()]
 CSS_KEYWORDS = ["inherit", "currentcolor", "transparent", "initial", "unset", "currentColor"]
 
@@ -419,6 +421,10 @@ class SheetGen:
                 return "var(--undefined%d, %s)" % (r.randrange(3), self.literal(rgb)), "undefined+fallback"
             return "var(--undefined%d)" % r.randrange(3), "undefined"
         if "keywords" in f and r.random() < 0.1:
+            if r.random() < 0.4:
+                # a modern CSS colour syntax: whether the tool reads it or lists the rule as needing attention, what it
+                # reports and writes must be consistent with the colour the value denotes
+                return r.choice(NEAR_CSS_IN_SHEETS), "keyword"
             return r.choice(CSS_KEYWORDS), "keyword"
         return self.literal(rgb), "literal"
 
